@@ -1,9 +1,12 @@
 """C02 — expression operators compute the HCL-defined function at every width."""
 from props import C19
+from props import C11
 from props.common_prog import judge_prog
 
-THEOREM_MODULES = ["Hcl.Theorems.C02", "Hcl.Tie.Ops", "Hcl.Tie.PinsValue"]
-THEOREMS = {"Hcl.Tie.PinsValue": ["Tie.PinsValue.pinAsWidth", "Tie.PinsValue.pinValueOp"],
+THEOREM_MODULES = ["Hcl.Theorems.C02", "Hcl.Tie.Ops", "Hcl.Tie.PinsValue", "Hcl.Tie.Grammar", "Hcl.Tie.PinsGrammar"]
+THEOREMS = {"Hcl.Tie.PinsGrammar": ["Tie.PinsGrammar.pinGrammarFile"],
+            "Hcl.Tie.Grammar": ["Tie.Grammar.grammarTiers", "Tie.Grammar.grammarOps", "Tie.Grammar.grammarInOperand", "Tie.Grammar.grammarBounds"],
+            "Hcl.Tie.PinsValue": ["Tie.PinsValue.pinAsWidth", "Tie.PinsValue.pinValueOp"],
             "Hcl.Tie.Ops": ["Tie.Ops.binopKind", "Tie.Ops.applyRawArms", "Tie.Ops.binopApplyText", "Tie.Ops.unopApplyText", "Tie.Ops.maskText", "Tie.Ops.combineText", "Tie.Ops.maxText"], "Hcl.Theorems.C02": ["C02_accepted", "Program_new_all", "C02_eval_eq_denote", "C02_assign", "ev_correct", "applyBin_spec", "applyUn_spec"]}
 
 RULE = ("S-EXPR: type-directed random expressions (every operator, depth 1-5, operand/result widths from "
@@ -25,4 +28,7 @@ def streams(tier, seed):
         {"name": "expr", "stream": "expr", "count": 4000 if q else 200000, "judge": judge},
         {"name": "prog-dag", "stream": "prog", "count": 300 if q else 10000, "extra": ("dag",), "judge": judge},
             # what the user sees goes through the command line and the two files: the real binary on accepted, rejected, big, not-UTF-8, bare-CR files, good and malformed images, all options and TIMEOUT forms (as in C19)
-            {"name": "cli", "stream": "cli", "count": 200 if q else 5000, "pygen": C19.pygen, "judge": C19.judge}]
+            {"name": "cli", "stream": "cli", "count": 200 if q else 5000, "pygen": C19.pygen, "judge": C19.judge},
+            # which function an operator symbol denotes in a written expression includes how the expression groups: the real
+            # parser against the parser model on operator pairs and triples, unary operators, slices, `in` (as in C11)
+            {"name": "parse", "stream": "parse", "count": 1500 if q else 50000, "judge": C11.judge}]
